@@ -252,3 +252,16 @@ Qed.
 Theorem all_ones_kernel_refuted_lemma :
   exists depth co f, (co < depth)%nat /\ channel_mix depth (fun _ _ => 1) f co <> f co.
 Proof. exists 2%nat, 0%nat, (fun ci => Z.of_nat ci + 1). split; [lia|]. vm_compute. discriminate. Qed.
+
+(* ---------- a grouped convolution as split / convolutions / concatenation ---------- *)
+Theorem conv_groups_lemma icg ocg w x co :
+  (0 < ocg)%nat ->
+  concat_groups ocg (fun g co' => group_conv icg ocg g w x co') co = grouped_mix icg ocg w x co.
+Proof.
+  intros H. unfold concat_groups, group_conv, grouped_mix, split_part. f_equal. apply map_ext. intros ci.
+  replace ((co / ocg) * ocg + co mod ocg)%nat with co; [reflexivity|].
+  rewrite (Nat.div_mod co ocg) at 1 by lia. lia.
+Qed.
+
+Example group_slices_example : group_slices 2 8 6 = [(0, 4, 0, 3); (4, 8, 3, 6)].
+Proof. vm_compute. reflexivity. Qed.
